@@ -171,7 +171,7 @@ void root_submit(const Script& s);
 template <class Fsm> void run_probe(Fsm& fsm);
 
 template <class Fsm>
-void after_callback(Fsm& fsm) {
+void after_callback(Fsm& fsm, bool may_throw = true) {
     Ctx& c = C();
     int k = c.ordinal++;
     if (c.scripts.empty()) return;
@@ -181,7 +181,9 @@ void after_callback(Fsm& fsm) {
         Script s = c.scripts[i];
         c.fired++;
         switch (s.what) {
-        case 't': tok("!throw"); throw std::runtime_error("scripted");
+        case 't':
+            if (!may_throw) { tok("!nothrow"); break; }   // exception_caught itself never throws (outside every property)
+            tok("!throw"); throw std::runtime_error("scripted");
         case 'p':
             tok(std::string("!sub") + s.how + ":" + std::to_string(s.ev) + "#" + std::to_string(s.payload));
             if (s.how == 'r' || s.how == 'Q') root_submit(s); else run_submit(fsm, s);
@@ -233,7 +235,7 @@ template <class Ev, class Fsm>
 void exception_caught(const char* mname, const Ev& e, Fsm& fsm, std::exception& x) {
     tok(std::string("xc:") + mname + "/" + rt_describe(e) + owner_tag(&fsm));
     (void)x;
-    after_callback(fsm);
+    after_callback(fsm, false);
 }
 
 // ------------------------------------------------------------------ API adapters
@@ -241,15 +243,15 @@ template <class M> void api_start(M& m) { m.start(); }
 template <class M> void api_stop(M& m) { m.stop(); }
 #if CFG >= 5
 template <class M> size_t api_msgq(const M& m) { return 1; }
-template <class M> void api_exec_all(M& m) { m.process_event_pool(); }
-template <class M> void api_exec_one(M& m) { m.process_event_pool(1); }
+template <class M> long api_exec_all(M& m) { return (long)m.process_event_pool(); }
+template <class M> long api_exec_one(M& m) { return (long)m.process_event_pool(1); }
 template <class M> int api_id(const M& m, int r) { return (int)m.get_active_state_ids()[r]; }
 template <class M> constexpr int api_nregions() { return (int)std::tuple_size<std::decay_t<decltype(std::declval<const M&>().get_active_state_ids())>>::value; }
 template <class R> int api_code(const R& r) { return (int)r; }
 #else
 template <class M> size_t api_msgq(const M& m) { return m.get_message_queue_size(); }
-template <class M> void api_exec_all(M& m) { m.execute_queued_events(); }
-template <class M> void api_exec_one(M& m) { m.execute_single_queued_event(); }
+template <class M> long api_exec_all(M& m) { m.execute_queued_events(); return -1; }
+template <class M> long api_exec_one(M& m) { m.execute_single_queued_event(); return -1; }
 template <class M> int api_id(const M& m, int r) { return (int)m.current_state()[r]; }
 template <class M> constexpr int api_nregions() { return (int)M::nr_regions::value; }
 template <class R> int api_code(const R& r) { return (int)r; }
